@@ -17,6 +17,16 @@ import Sqljson.Model.Parse
 * §4 `scanString_quote` — `unquote (quote s) = s`: the lexer reads back what `ast.quote`
                            writes, for every string without NUL.
 * §5 totality           — `parse` is a total function by construction; the lexer never gives input back.
+* §6 `lex_num`          — the text of an `INT_P` / `NUMERIC_P` token starts with a digit or a dot.
+* §7 `parseInt0_neg`, `parseFloatFinite_neg` — `strconv` accepts the negation of a literal it accepts.
+* §8 `track_lex`, `lex_stop` — the lexer never skips an undecodable byte or NUL without recording
+                           an error, and answers `stopTok` only after an error or at the end.
+* §9 `parse_ok_clean`, `rejects_nul`, `rejects_invalid_utf8` — **C04**: an accepted input was read
+                           to its end and contains no NUL byte and no invalid UTF-8.
+* §10 `lex_int`, `lex_formatNat` — decimal integer literals are read back as `INT_P` with their text.
+* §9 `parse_never_panics` — **C04**: for every oracle and every byte string, `parse ≠ panic`
+                           (partial-correctness calculus `Safe`, invariant `EVInv` on the literal
+                           that `ast.NewUnaryOrNumber` re-parses, induction on the fuel).
 -/
 
 namespace Sqljson
@@ -970,6 +980,72 @@ theorem next_at_end (s : LState) (h : s.rest = []) : next s = (none, s) := by
   simp [next, h]
 
 
+/-! ### NUL and invalid UTF-8 at the level of `next`; errors are final -/
+
+/-- reading an undecodable byte records an error and yields `stopTok` -/
+theorem next_bad (s : LState) (r : List Src) (h : s.rest = .bad :: r) :
+    (next s).1 = none ∧ (next s).2.err = true ∧ (next s).2.rest = r := by
+  simp [next, h]
+
+/-- reading NUL records an error and yields `stopTok` -/
+theorem next_nul (s : LState) (c : Char) (r : List Src) (h : s.rest = .ch c :: r) (hc : c.toNat = 0) :
+    (next s).1 = none ∧ (next s).2.err = true ∧ (next s).2.rest = r := by
+  simp [next, h, hc]
+
+/-- `next` never clears the error flag -/
+theorem next_err_mono (s : LState) (h : s.err = true) : (next s).2.err = true := by
+  unfold next
+  split
+  · exact h
+  · rfl
+  · split
+    · rfl
+    · exact h
+
+/-- the UTF-8 decoder marks exactly the bytes `utf8.DecodeRune` rejects: a byte that cannot start
+    a rune is `bad` -/
+theorem decodeRune_invalid_lead (b : UInt8) (rest : List UInt8) (h : 0x80 ≤ b.toNat ∧ b.toNat < 0xC2 ∨ 0xF5 ≤ b.toNat) :
+    decodeRune (b :: rest) = (.bad, 1) := by
+  unfold decodeRune
+  simp only
+  rcases h with ⟨h1, h2⟩ | h
+  · have a : ¬ b.toNat < 0x80 := by omega
+    simp [a, h2]
+  · have a1 : ¬ b.toNat < 0x80 := by omega
+    have a2 : ¬ b.toNat < 0xC2 := by omega
+    have a3 : ¬ b.toNat < 0xE0 := by omega
+    have a4 : ¬ b.toNat < 0xF0 := by omega
+    have a5 : ¬ b.toNat < 0xF5 := by omega
+    simp [a1, a2, a3, a4, a5]
+
+/-- whenever the final lexer state has an error on record, `Parse` answers with an error:
+    nothing is ever accepted "in spite of" a recorded error -/
+theorem parse_err_of_error_recorded (o : Oracles) (bytes : List UInt8) (r : Option AST) (s : PS)
+    (hr : Parse.run o bytes = .ok r s) (he : s.lx.err = true) : parse o bytes = .err := by
+  unfold parse
+  simp [hr, he]
+
+/-- conversely an accepted input ended with no error on record -/
+theorem parse_ok_no_error (o : Oracles) (bytes : List UInt8) (a : AST) (h : parse o bytes = .ok a) :
+    ∃ s, Parse.run o bytes = .ok (some a) s ∧ s.lx.err = false := by
+  unfold parse at h
+  cases hr : Parse.run o bytes with
+  | ok r s =>
+    simp only [hr] at h
+    by_cases he : s.lx.err = true
+    · simp [he] at h
+    · have he' : s.lx.err = false := by cases hx : s.lx.err <;> simp_all
+      simp only [he'] at h
+      cases r with
+      | none => simp at h
+      | some a' =>
+        simp at h
+        exact ⟨s, by rw [h], he'⟩
+  | syn => simp [hr] at h
+  | panic => simp [hr] at h
+  | fuel => simp [hr] at h
+
+
 /-! ## §6 Number tokens start with a digit or a dot
 
 `lex_num`: whenever `Lex` returns `INT_P` or `NUMERIC_P`, the token text starts with a decimal
@@ -1504,19 +1580,598 @@ theorem parseInt0_neg {r : List Char} (hr : NumHead r) (h : (parseInt0 r).isSome
   exact parseIntCore_neg 64 _ h
 
 
-/-! ## §8 `Parse` never panics -/
+/-! ## §8 What `Lex` has read: the invariant `Track`
 
+`Track L s`: the lexer state `s` is somewhere in the decoded source `L`, and if anything read so
+far was an undecodable byte or NUL, an error is on record.  Every function of the lexer keeps it
+(`track_lex`).  `lex_stop`: `Lex` answers `stopTok` only after an error or at the end of the source.
+Together: an input is accepted only if the lexer has read all of it and none of it was an
+undecodable byte or NUL (`parse_ok_clean`, §9). -/
+
+/-- a source position that `next` reads without recording an error -/
+def cleanSrc : Src → Bool
+  | .bad => false
+  | .ch c => c.toNat ≠ 0
+
+/-- an invariant of the lexer state that the four state-changing primitives keep -/
+structure LexInv where
+  P : LState → Prop
+  keepNext : ∀ s, P s → P (Lex.next s).2
+  keepErr : ∀ s, P s → P (Lex.setErr s)
+  keepOof : ∀ s, P s → P (Lex.setOof s)
+  /-- the "backtrack" of `scanUnicode`: same position as `s`, error recorded -/
+  keepBack : ∀ s (e : Bool), P s → P (Lex.setErr { s with err := e })
+  /-- `Lex` stores the look-ahead rune in the state -/
+  keepCh : ∀ s (c : Option Char), P s → P { s with ch := c }
+
+/-- `s` satisfies the invariant `L` -/
+def Track (L : LexInv) (s : LState) : Prop := L.P s
+
+theorem track_next {L : LexInv} {s : LState} (h : Track L s) : Track L (next s).2 := L.keepNext s h
+theorem track_setErr {L : LexInv} {s : LState} (h : Track L s) : Track L (setErr s) := L.keepErr s h
+theorem track_setOof {L : LexInv} {s : LState} (h : Track L s) : Track L (setOof s) := L.keepOof s h
+theorem track_backtrack {L : LexInv} {s : LState} (e : Bool) (h : Track L s) :
+    Track L (setErr { s with err := e }) := L.keepBack s e h
+theorem track_withCh {L : LexInv} {s : LState} (c : Option Char) (h : Track L s) :
+    Track L { s with ch := c } := L.keepCh s c h
+
+/-- the lexer is somewhere in the source `L`, and if anything it has read so far was an
+    undecodable byte or NUL, an error is on record -/
+def srcInv (L : List Src) : LexInv where
+  P s := ∃ pre, L = pre ++ s.rest ∧ (pre.all cleanSrc = false → s.err = true)
+  keepNext := by
+    intro s h
+    obtain ⟨pre, hL, he⟩ := h
+    unfold Lex.next
+    split
+    · exact ⟨pre, hL, he⟩
+    · rename_i r hr
+      refine ⟨pre ++ [.bad], by simp [hL, hr], fun _ => rfl⟩
+    · rename_i c r hr
+      split
+      · refine ⟨pre ++ [.ch c], by simp [hL, hr], fun _ => rfl⟩
+      · rename_i hc
+        refine ⟨pre ++ [.ch c], by simp [hL, hr], ?_⟩
+        intro hall
+        simp only [List.all_append, List.all_cons, List.all_nil, Bool.and_true, Bool.and_eq_false_imp] at hall
+        apply he
+        cases hp : pre.all cleanSrc with
+        | false => rfl
+        | true =>
+          have := hall hp
+          simp [cleanSrc, hc] at this
+  keepErr := by
+    intro s h; obtain ⟨pre, hL, _⟩ := h; exact ⟨pre, hL, fun _ => rfl⟩
+  keepOof := by
+    intro s h; obtain ⟨pre, hL, he⟩ := h; exact ⟨pre, hL, he⟩
+  keepBack := by
+    intro s e h; obtain ⟨pre, hL, _⟩ := h; exact ⟨pre, hL, fun _ => rfl⟩
+  keepCh := by
+    intro s c h; obtain ⟨pre, hL, he⟩ := h; exact ⟨pre, hL, he⟩
+
+/-- an error is on record (it is never cleared) -/
+def errInv : LexInv where
+  P s := s.err = true
+  keepNext := fun s h => next_err_mono s h
+  keepErr := fun _ _ => rfl
+  keepOof := fun _ h => h
+  keepBack := fun _ _ _ => rfl
+  keepCh := fun _ _ h => h
+
+/-- extensible step of the `track` tactic: one rule per lemma `Track L s → Track L (f … s).state` -/
+syntax "track_more" : tactic
+macro_rules | `(tactic| track_more) => `(tactic| with_reducible apply track_setErr)
+macro_rules | `(tactic| track_more) => `(tactic| with_reducible apply track_setOof)
+macro_rules | `(tactic| track_more) => `(tactic| with_reducible apply track_backtrack)
+macro_rules | `(tactic| track_more) => `(tactic| with_reducible apply track_next)
+
+/-- close `Track L X` goals by peeling the lexer functions off `X` -/
+macro "track" : tactic => `(tactic| ((try dsimp only); repeat (first | assumption | track_more)))
+
+/-- unfold-and-case-split proof of a `Track` preservation lemma -/
+macro "track_cases" : tactic => `(tactic| ((try simp only []); (repeat' split); all_goals track))
+
+theorem track_braceDigits {L : LexInv} : ∀ (f i : Nat) (c : Option Char) (rr : Nat) (s : LState),
+    Track L s → Track L (braceDigits f i c rr s).2
+  | 0, _, _, _, s, h => by simp only [braceDigits]; track
+  | f + 1, i, c, rr, s, h => by
+    unfold braceDigits
+    simp only []
+    repeat' split
+    all_goals first
+      | (apply track_braceDigits; track)
+      | track
+macro_rules | `(tactic| track_more) => `(tactic| (with_reducible apply track_braceDigits))
+
+theorem track_fixedDigits {L : LexInv} : ∀ (k rr : Nat) (s : LState),
+    Track L s → Track L (fixedDigits k rr s).2
+  | 0, _, s, h => by simp only [fixedDigits]; exact h
+  | k + 1, rr, s, h => by
+    unfold fixedDigits
+    simp only []
+    repeat' split
+    all_goals first
+      | (apply track_fixedDigits; track)
+      | track
+macro_rules | `(tactic| track_more) => `(tactic| (with_reducible apply track_fixedDigits))
+
+theorem track_decodeUnicode {L : LexInv} (s : LState) (h : Track L s) : Track L (decodeUnicode s).2 := by
+  unfold decodeUnicode
+  track_cases
+macro_rules | `(tactic| track_more) => `(tactic| (with_reducible apply track_decodeUnicode))
+
+theorem track_decodeUnicode_eq {L : LexInv} {s s' : LState} {r : Option Nat}
+    (heq : decodeUnicode s = (r, s')) (h : Track L s) : Track L s' := by
+  have := track_decodeUnicode s h
+  rw [heq] at this
+  exact this
+macro_rules | `(tactic| track_more) => `(tactic| (refine track_decodeUnicode_eq (by assumption) ?_))
+
+theorem track_scanUnicode {L : LexInv} (s : LState) (h : Track L s) : Track L (scanUnicode s).st := by
+  unfold scanUnicode
+  track_cases
+macro_rules | `(tactic| track_more) => `(tactic| (with_reducible apply track_scanUnicode))
+
+theorem track_scanHex {L : LexInv} (s : LState) (h : Track L s) : Track L (scanHex s).st := by
+  unfold scanHex
+  track_cases
+macro_rules | `(tactic| track_more) => `(tactic| (with_reducible apply track_scanHex))
+
+theorem track_scanEscape {L : LexInv} (buf : List Char) (s : LState) (h : Track L s) :
+    Track L (scanEscape buf s).2.2 := by
+  unfold scanEscape
+  track_cases
+macro_rules | `(tactic| track_more) => `(tactic| (with_reducible apply track_scanEscape))
+
+
+section
+variable (o : Oracles)
+
+theorem track_identLoop {L : LexInv} : ∀ (f : Nat) (ch : Option Char) (buf : List Char) (s : LState),
+    Track L s → Track L (identLoop o f ch buf s).2.2
+  | 0, _, _, s, h => by simp only [identLoop]; track
+  | f + 1, ch, buf, s, h => by
+    unfold identLoop
+    simp only []
+    repeat' split
+    all_goals first
+      | (apply track_identLoop; track)
+      | track
+macro_rules | `(tactic| track_more) => `(tactic| (with_reducible apply track_identLoop))
+
+theorem track_scanIdent {L : LexInv} (c : Char) (s : LState) (h : Track L s) :
+    Track L (scanIdent o c s).st := by
+  unfold scanIdent
+  track_cases
+macro_rules | `(tactic| track_more) => `(tactic| (with_reducible apply track_scanIdent))
+
+theorem track_stringLoop {L : LexInv} : ∀ (f : Nat) (ret : Tok) (ch : Option Char) (buf : List Char) (s : LState),
+    Track L s → Track L (stringLoop f ret ch buf s).st
+  | 0, _, _, _, s, h => by simp only [stringLoop]; track
+  | f + 1, ret, ch, buf, s, h => by
+    unfold stringLoop
+    simp only []
+    repeat' split
+    all_goals first
+      | (apply track_stringLoop; track)
+      | track
+macro_rules | `(tactic| track_more) => `(tactic| (with_reducible apply track_stringLoop))
+
+theorem track_scanString {L : LexInv} (ret : Tok) (s : LState) (h : Track L s) :
+    Track L (scanString ret s).st := by
+  unfold scanString
+  track_cases
+macro_rules | `(tactic| track_more) => `(tactic| (with_reducible apply track_scanString))
+
+theorem track_variableLoop {L : LexInv} : ∀ (f : Nat) (ch : Option Char) (buf : List Char) (s : LState),
+    Track L s → Track L (variableLoop o f ch buf s).2.2
+  | 0, _, _, s, h => by simp only [variableLoop]; track
+  | f + 1, ch, buf, s, h => by
+    unfold variableLoop
+    simp only []
+    repeat' split
+    all_goals first
+      | (apply track_variableLoop; track)
+      | track
+macro_rules | `(tactic| track_more) => `(tactic| (with_reducible apply track_variableLoop))
+
+theorem track_scanVariable {L : LexInv} (s : LState) (h : Track L s) :
+    Track L (scanVariable o s).st := by
+  unfold scanVariable
+  track_cases
+macro_rules | `(tactic| track_more) => `(tactic| (with_reducible apply track_scanVariable))
+
+theorem track_commentLoop {L : LexInv} : ∀ (f : Nat) (ch : Option Char) (s : LState),
+    Track L s → Track L (commentLoop f ch s).2
+  | 0, _, s, h => by simp only [commentLoop]; track
+  | f + 1, ch, s, h => by
+    unfold commentLoop
+    simp only []
+    repeat' split
+    all_goals first
+      | (apply track_commentLoop; track)
+      | track
+macro_rules | `(tactic| track_more) => `(tactic| (with_reducible apply track_commentLoop))
+
+theorem track_scanOperator {L : LexInv} (c : Char) (s : LState) (h : Track L s) :
+    Track L (scanOperator c s).st := by
+  unfold scanOperator
+  track_cases
+macro_rules | `(tactic| track_more) => `(tactic| (with_reducible apply track_scanOperator))
+
+theorem track_digitsLoop {L : LexInv} (hex : Bool) (maxCh : Nat) :
+    ∀ (f : Nat) (ch : Option Char) (ds : Nat) (inv : Option Char) (acc : List Char) (s : LState),
+    Track L s → Track L (digitsLoop hex maxCh f ch ds inv acc s).2.2.2.2
+  | 0, _, _, _, _, s, h => by simp only [digitsLoop]; track
+  | f + 1, ch, ds, inv, acc, s, h => by
+    unfold digitsLoop
+    simp only []
+    repeat' split
+    all_goals first
+      | (apply track_digitsLoop; track)
+      | track
+macro_rules | `(tactic| track_more) => `(tactic| (with_reducible apply track_digitsLoop))
+
+theorem track_digits {L : LexInv} (base : Nat) (ch : Option Char) (inv : Option Char) (acc : List Char)
+    (s : LState) (h : Track L s) : Track L (digits base ch inv acc s).2.2.2.2 := by
+  unfold digits
+  track
+macro_rules | `(tactic| track_more) => `(tactic| (with_reducible apply track_digits))
+
+theorem track_numErr {L : LexInv} (s : LState) (h : Track L s) : Track L (numErr s).st := by
+  unfold numErr
+  track
+macro_rules | `(tactic| track_more) => `(tactic| (with_reducible apply track_numErr))
+
+theorem track_numFinish {L : LexInv} (tok : Tok) (ch : Option Char) (digSep : Nat) (inv : Option Char)
+    (acc : List Char) (s : LState) (h : Track L s) : Track L (numFinish o tok ch digSep inv acc s).st := by
+  unfold numFinish
+  track_cases
+macro_rules | `(tactic| track_more) => `(tactic| (with_reducible apply track_numFinish))
+
+theorem track_fracPart {L : LexInv} (tok0 : Tok) (seenDot : Bool) (base : Nat) (ch : Option Char)
+    (digSep : Nat) (inv : Option Char) (acc : List Char) (s : LState) (h : Track L s) :
+    Track L (fracPart tok0 seenDot base ch digSep inv acc s).2.2.2.2.2 := by
+  unfold fracPart
+  track_cases
+macro_rules | `(tactic| track_more) => `(tactic| (with_reducible apply track_fracPart))
+
+theorem track_expPart {L : LexInv} (pp : Bool) (tok1 : Tok) (ch1 : Option Char) (digSep1 : Nat)
+    (inv1 : Option Char) (acc1 : List Char) (s1 : LState) (h : Track L s1) :
+    Track L (expPart o pp tok1 ch1 digSep1 inv1 acc1 s1).st := by
+  unfold expPart
+  track_cases
+macro_rules | `(tactic| track_more) => `(tactic| (with_reducible apply track_expPart))
+
+theorem track_scanNumberTail {L : LexInv} (tok0 : Tok) (seenDot : Bool) (base : Nat) (pp : Bool)
+    (ch : Option Char) (digSep : Nat) (inv : Option Char) (acc : List Char) (s : LState) (h : Track L s) :
+    Track L (scanNumberTail o tok0 seenDot base pp ch digSep inv acc s).st := by
+  unfold scanNumberTail
+  track_cases
+macro_rules | `(tactic| track_more) => `(tactic| (with_reducible apply track_scanNumberTail))
+
+theorem track_zeroPrefix {L : LexInv} {acc : List Char} {s : LState} {b : Nat} {p : Bool} {d : Nat}
+    {ch : Option Char} {acc1 : List Char} {s1 : LState}
+    (heq : zeroPrefix acc s = some (b, p, d, ch, acc1, s1)) (h : Track L s) : Track L s1 := by
+  unfold zeroPrefix at heq
+  simp only at heq
+  repeat' (split at heq)
+  all_goals first
+    | (simp at heq; done)
+    | (injection heq with heq; injection heq with _ heq; injection heq with _ heq; injection heq with _ heq
+       injection heq with _ heq; injection heq with _ heq; subst heq; track)
+macro_rules | `(tactic| track_more) => `(tactic| (refine track_zeroPrefix (by assumption) ?_))
+
+theorem track_scanNumberBody {L : LexInv} (base : Nat) (pp : Bool) (d0 : Nat) (ch : Option Char)
+    (acc1 : List Char) (s1 : LState) (h : Track L s1) :
+    Track L (scanNumberBody o base pp d0 ch acc1 s1).st := by
+  unfold scanNumberBody
+  track_cases
+macro_rules | `(tactic| track_more) => `(tactic| (with_reducible apply track_scanNumberBody))
+
+theorem track_scanNumber {L : LexInv} (c : Char) (seenDot : Bool) (acc : List Char) (s : LState)
+    (h : Track L s) : Track L (scanNumber o c seenDot acc s).st := by
+  unfold scanNumber
+  track_cases
+macro_rules | `(tactic| track_more) => `(tactic| (with_reducible apply track_scanNumber))
+
+theorem track_skipWs {L : LexInv} : ∀ (f : Nat) (ch : Option Char) (s : LState),
+    Track L s → Track L (skipWs f ch s).2
+  | 0, _, s, h => by simp only [skipWs]; track
+  | f + 1, ch, s, h => by
+    unfold skipWs
+    simp only []
+    repeat' split
+    all_goals first
+      | (apply track_skipWs; track)
+      | track
+macro_rules | `(tactic| track_more) => `(tactic| (with_reducible apply track_skipWs))
+
+theorem track_lexFrom {L : LexInv} : ∀ (f : Nat) (ch : Option Char) (s : LState),
+    Track L s → Track L (lexFrom o f ch s).st
+  | 0, _, s, h => by simp only [lexFrom]; track
+  | f + 1, ch, s, h => by
+    unfold lexFrom
+    simp only []
+    repeat' split
+    all_goals first
+      | (apply track_lexFrom; track)
+      | track
+macro_rules | `(tactic| track_more) => `(tactic| (with_reducible apply track_lexFrom))
+
+/-- `Lex` keeps the invariant: whatever it reads that is undecodable or NUL leaves an error -/
+theorem track_lex {L : LexInv} (s : LState) (h : Track L s) : Track L (lex o s).2.2 := by
+  unfold lex
+  simp only []
+  split
+  · exact track_withCh _ (show Track L (lexFrom o (s.rest.length + 3) _ s).st by track)
+  · exact track_withCh _ (show Track L (lexFrom o ((next s).2.rest.length + 3) (next s).1 (next s).2).st by track)
+
+end
+
+
+/-! ### when `Lex` answers `stopTok` without an error, the source is exhausted -/
+
+/-- an error is on record, or a loop of the model ran out of fuel, or nothing is left to read -/
+def EndOk (s : LState) : Prop := s.err = true ∨ s.oof = true ∨ s.rest = []
+
+/-- a rune that is `stopTok` was produced by the end of the source or by an error -/
+def NoneOk (ch : Option Char) (s : LState) : Prop := ch = none → EndOk s
+
+theorem endOk_setErr (s : LState) : EndOk (setErr s) := Or.inl rfl
+theorem endOk_setOof (s : LState) : EndOk (setOof s) := Or.inr (Or.inl rfl)
+
+theorem noneOk_next (s : LState) : NoneOk (next s).1 (next s).2 := by
+  unfold next
+  split
+  · rename_i h; intro _; exact Or.inr (Or.inr h)
+  · intro _; exact Or.inl rfl
+  · split
+    · intro _; exact Or.inl rfl
+    · intro h; simp at h
+
+def isStop (t : Tok) : Bool := t = .stop
+
+theorem identToken_notStop (o : Oracles) (t : List Char) : isStop (identToken o t) = false := by
+  unfold identToken
+  simp only [apply_ite isStop]
+  simp [isStop]
+
+theorem tokOfRune_notStop (c : Char) : isStop (tokOfRune c) = false := by
+  unfold tokOfRune
+  simp only [apply_ite isStop]
+  have : ∀ i, isStop (kwTable.getD i .unk) = false := by
+    intro i
+    by_cases hi : i < 48
+    · have : ∀ j, j < 48 → isStop (kwTable.getD j .unk) = false := by decide
+      exact this i hi
+    · have : kwTable.getD i .unk = .unk := by
+        unfold kwTable
+        simp only [List.getD_eq_getElem?_getD]
+        rw [List.getElem?_eq_none (by simp; omega)]
+        rfl
+      rw [this]; rfl
+  simp only [this]
+  simp [isStop]
+
+theorem commentLoop_noneOk : ∀ (f : Nat) (ch : Option Char) (s : LState),
+    NoneOk (commentLoop f ch s).1 (commentLoop f ch s).2
+  | 0, _, s => by simp only [commentLoop]; intro _; exact endOk_setOof s
+  | f + 1, ch, s => by
+    unfold commentLoop
+    split
+    · intro _; exact endOk_setErr s
+    · simp only []
+      split
+      · exact noneOk_next _
+      · exact commentLoop_noneOk f _ _
+
+theorem skipWs_noneOk : ∀ (f : Nat) (ch : Option Char) (s : LState), NoneOk ch s →
+    NoneOk (skipWs f ch s).1 (skipWs f ch s).2
+  | 0, ch, s, _ => by simp only [skipWs]; intro _; exact endOk_setOof s
+  | f + 1, ch, s, h => by
+    unfold skipWs
+    split
+    · split
+      · simp only []
+        exact skipWs_noneOk f _ _ (noneOk_next s)
+      · intro hh; simp at hh
+    · exact h
+
+
+theorem scanIdent_stop (o : Oracles) (c : Char) (s : LState) :
+    (scanIdent o c s).tok = .stop → EndOk (scanIdent o c s).st := by
+  unfold scanIdent
+  simp only []
+  repeat' split
+  all_goals first
+    | (intro _; apply Or.inl; assumption)
+    | (intro h
+       simp only [] at h
+       have hh : ∀ t, identToken o t = .stop → False := by
+         intro t ht
+         have := identToken_notStop o t
+         rw [ht] at this
+         exact absurd this (by decide)
+       exact absurd h (fun h' => hh _ h'))
+
+theorem stringLoop_stop (ret : Tok) (hret : isStop ret = false) :
+    ∀ (f : Nat) (ch : Option Char) (buf : List Char) (s : LState),
+      (stringLoop f ret ch buf s).tok = .stop → EndOk (stringLoop f ret ch buf s).st
+  | 0, _, _, s => by simp only [stringLoop]; intro _; exact endOk_setOof s
+  | f + 1, ch, buf, s => by
+    unfold stringLoop
+    split
+    · intro _; exact endOk_setErr s
+    · split
+      · simp only []
+        intro h; rw [h] at hret; exact absurd hret (by decide)
+      · split
+        · intro _; exact endOk_setErr s
+        · split
+          · exact stringLoop_stop ret hret f _ _ _
+          · exact stringLoop_stop ret hret f _ _ _
+
+theorem scanString_stop (ret : Tok) (hret : isStop ret = false) (s : LState)
+    (h : (scanString ret s).tok = .stop) : EndOk (scanString ret s).st := by
+  unfold scanString at h ⊢
+  exact stringLoop_stop ret hret _ _ _ _ h
+
+theorem scanVariable_stop (o : Oracles) (s : LState) (h : (scanVariable o s).tok = .stop) :
+    EndOk (scanVariable o s).st := by
+  unfold scanVariable at h ⊢
+  simp only [] at h ⊢
+  split
+  · rename_i hq
+    rw [if_pos hq] at h
+    exact scanString_stop .variable rfl _ h
+  · rename_i hq
+    rw [if_neg hq] at h
+    split
+    · rename_i hv; rw [if_pos hv] at h; simp at h
+    · rename_i hv; rw [if_neg hv] at h; simp at h
+
+theorem scanOperator_notStop (c : Char) (s : LState) : isStop (scanOperator c s).tok = false := by
+  unfold scanOperator
+  simp only []
+  repeat' split
+  all_goals first
+    | rfl
+    | exact tokOfRune_notStop c
+
+theorem numFinish_stop (o : Oracles) (tok : Tok) (ht : isStop tok = false) (ch : Option Char) (digSep : Nat)
+    (inv : Option Char) (acc : List Char) (s : LState) :
+    (numFinish o tok ch digSep inv acc s).tok = .stop →
+      (numFinish o tok ch digSep inv acc s).st.err = true := by
+  unfold numFinish numErr
+  repeat' split
+  all_goals first
+    | (intro _; rfl)
+    | (intro h; simp only [] at h; rw [h] at ht; exact absurd ht (by decide))
+
+theorem expPart_stop (o : Oracles) (pp : Bool) (tok1 : Tok) (ht : isStop tok1 = false) (ch1 : Option Char)
+    (digSep1 : Nat) (inv1 : Option Char) (acc1 : List Char) (s1 : LState) :
+    (expPart o pp tok1 ch1 digSep1 inv1 acc1 s1).tok = .stop →
+      (expPart o pp tok1 ch1 digSep1 inv1 acc1 s1).st.err = true := by
+  unfold expPart numErr
+  simp only []
+  repeat' split
+  all_goals first
+    | (intro _; rfl)
+    | exact numFinish_stop o _ rfl _ _ _ _ _
+    | exact numFinish_stop o _ ht _ _ _ _ _
+
+theorem fracPart_tok (tok0 : Tok) (ht : isStop tok0 = false) (seenDot : Bool) (base : Nat) (ch : Option Char)
+    (digSep : Nat) (inv : Option Char) (acc : List Char) (s : LState) :
+    isStop (fracPart tok0 seenDot base ch digSep inv acc s).1 = false := by
+  unfold fracPart
+  split
+  · rfl
+  · exact ht
+
+theorem scanNumberTail_stop (o : Oracles) (tok0 : Tok) (ht : isStop tok0 = false) (seenDot : Bool) (base : Nat)
+    (pp : Bool) (ch : Option Char) (digSep : Nat) (inv : Option Char) (acc : List Char) (s : LState) :
+    (scanNumberTail o tok0 seenDot base pp ch digSep inv acc s).tok = .stop →
+      (scanNumberTail o tok0 seenDot base pp ch digSep inv acc s).st.err = true := by
+  unfold scanNumberTail
+  simp only []
+  exact expPart_stop o _ _ (fracPart_tok tok0 ht _ _ _ _ _ _ _) _ _ _ _ _
+
+theorem scanNumberBody_stop (o : Oracles) (base : Nat) (pp : Bool) (d0 : Nat) (ch : Option Char)
+    (acc1 : List Char) (s1 : LState) :
+    (scanNumberBody o base pp d0 ch acc1 s1).tok = .stop →
+      (scanNumberBody o base pp d0 ch acc1 s1).st.err = true := by
+  unfold scanNumberBody numErr
+  simp only []
+  repeat' split
+  all_goals first
+    | (intro _; rfl)
+    | (intro h; simp at h; done)
+    | exact scanNumberTail_stop o _ rfl _ _ _ _ _ _ _ _
+
+theorem scanNumber_stop (o : Oracles) (c : Char) (seenDot : Bool) (acc : List Char) (s : LState) :
+    (scanNumber o c seenDot acc s).tok = .stop → (scanNumber o c seenDot acc s).st.err = true := by
+  unfold scanNumber numErr
+  repeat' split
+  all_goals first
+    | (intro _; rfl)
+    | exact scanNumberTail_stop o _ rfl _ _ _ _ _ _ _ _
+    | exact scanNumberBody_stop o _ _ _ _ _ _
+
+theorem lexFrom_stop (o : Oracles) : ∀ (f : Nat) (ch : Option Char) (s : LState), NoneOk ch s →
+    (lexFrom o f ch s).tok = .stop → EndOk (lexFrom o f ch s).st
+  | 0, _, s, _ => by simp only [lexFrom]; intro _; exact endOk_setOof s
+  | f + 1, ch0, s0, h0 => by
+    unfold lexFrom
+    simp only
+    have hws := skipWs_noneOk (s0.rest.length + 3) ch0 s0 h0
+    split
+    · rename_i hnone
+      intro _
+      exact hws hnone
+    · rename_i c hsk
+      split
+      · exact scanIdent_stop o c _
+      · split
+        · intro h; exact Or.inl (scanNumber_stop o c _ _ _ h)
+        · split
+          · exact scanString_stop _ rfl _
+          · split
+            · exact scanVariable_stop o _
+            · split
+              · split
+                · exact lexFrom_stop o f _ _ (commentLoop_noneOk _ _ _)
+                · intro h; simp at h
+              · split
+                · split
+                  · split
+                    · intro h; exact Or.inl (scanNumber_stop o _ _ _ _ h)
+                    · intro h; simp at h
+                  · intro h; simp at h
+                · split
+                  · intro _; exact endOk_setErr _
+                  · intro h
+                    have := scanOperator_notStop c (skipWs (s0.rest.length + 3) ch0 s0).2
+                    rw [h] at this
+                    exact absurd this (by decide)
+
+/-- `Lex` answers `stopTok` only after an error, or at the end of the source -/
+theorem lex_stop (o : Oracles) (s : LState) (h : (lex o s).1 = .stop) : EndOk (lex o s).2.2 := by
+  unfold lex at h ⊢
+  simp only [] at h ⊢
+  have hn : NoneOk (match s.ch with | some c => (some c, s) | none => next s).1
+      (match s.ch with | some c => (some c, s) | none => next s).2 := by
+    split
+    · intro hh; simp at hh
+    · exact noneOk_next s
+  have := lexFrom_stop o _ _ _ hn h
+  rcases this with h1 | h1 | h1
+  · exact Or.inl h1
+  · exact Or.inr (Or.inl h1)
+  · exact Or.inr (Or.inr h1)
+
+
+/-! ## §9 `Parse` never panics, and never accepts NUL or invalid UTF-8 -/
 
 def TokOk (t : Tok × List Char) : Prop := (t.1 = .int ∨ t.1 = .numeric) → NumHead t.2
 
-def PSInv (s : PS) : Prop := ∀ t, s.la = some t → TokOk t
+/-- invariant of the parser state relative to the decoded source `L`: a cached look-ahead token is
+    never `stopTok` and, when it is a number, starts with a digit or a dot; the lexer state
+    satisfies `Track L` -/
+def PSInv (L : List Src) (s : PS) : Prop :=
+  (∀ t, s.la = some t → TokOk t ∧ t.1 ≠ .stop) ∧ Track (srcInv L) s.lx
 
-/-- partial correctness "never panics, and establishes `Q`" over states satisfying `PSInv` -/
-def Safe {α : Type} (Q : α → Prop) (m : P α) : Prop :=
-  ∀ s, PSInv s → match m s with
-    | .ok a s' => Q a ∧ PSInv s'
+/-- partial correctness "never panics, and establishes `Q`" over states satisfying `PSInv L` -/
+def SafeL {α : Type} (L : List Src) (Q : α → Prop) (m : P α) : Prop :=
+  ∀ s, PSInv L s → match m s with
+    | .ok a s' => Q a ∧ PSInv L s'
     | .panic => False
     | _ => True
+
+section
+variable {L : List Src}
+
+local notation "Safe" => SafeL L
 
 theorem safe_pure {α : Type} {Q : α → Prop} {a : α} (h : Q a) : Safe Q (pure a : P α) := by
   intro s hs; exact ⟨h, hs⟩
@@ -1548,17 +2203,1259 @@ theorem safe_syn {α : Type} {Q : α → Prop} : Safe Q (syn : P α) := by intro
 theorem safe_outOfFuel {α : Type} {Q : α → Prop} : Safe Q (outOfFuel : P α) := by intro s _; trivial
 
 theorem safe_consume : Safe (fun _ => True) consume := by
-  intro s _
-  refine ⟨trivial, ?_⟩
+  intro s hs
+  refine ⟨trivial, ?_, hs.2⟩
   intro t ht; simp at ht
 
 theorem safe_recordError : Safe (fun _ => True) recordError := by
   intro s hs
-  exact ⟨trivial, fun t ht => hs t ht⟩
+  exact ⟨trivial, fun t ht => hs.1 t ht, track_setErr hs.2⟩
 
 theorem safe_hasError : Safe (fun _ => True) hasError := by
   intro s hs; exact ⟨trivial, hs⟩
 
+
+
+/-- a literal on which `NewUnaryOrNumber` can be applied any number of times: `r` or `-r` for a
+    text `r` that starts with a digit or a dot and that `strconv` accepts with and without sign -/
+def IsNumLit (P : List Char → Bool) (lit : List Char) : Prop :=
+  ∃ r, (lit = r ∨ lit = '-' :: r) ∧ NumHead r ∧ P r = true ∧ P ('-' :: r) = true
+
+def intOk (l : List Char) : Bool := (parseInt0 l).isSome
+def numOk (l : List Char) : Bool := (parseFloatFinite l).isSome
+
+theorem numHead_negLit {r : List Char} (h : NumHead r) : negLit r = '-' :: r := by
+  obtain ⟨c, cs, hr, h1, _, _⟩ := numHead_not_sign h
+  subst hr
+  unfold negLit
+  split
+  · rename_i heq; injection heq with a b; exact absurd a h1
+  · rfl
+
+theorem isNumLit_neg {P : List Char → Bool} {lit : List Char} (h : IsNumLit P lit) :
+    IsNumLit P (negLit lit) ∧ P (negLit lit) = true := by
+  obtain ⟨r, hl, hr, p1, p2⟩ := h
+  rcases hl with hl | hl
+  · subst hl
+    rw [numHead_negLit hr]
+    exact ⟨⟨lit, Or.inr rfl, hr, p1, p2⟩, p2⟩
+  · subst hl
+    exact ⟨⟨r, Or.inl rfl, hr, p1, p2⟩, p1⟩
+
+/-- the invariant of every `expr` / `predicate` value: a number node without `next` carries a
+    literal that can be negated -/
+def EVInv (v : EV) : Prop :=
+  v.node.next = none →
+    (∀ i nx, v.node = .integer i nx → IsNumLit intOk v.lit) ∧
+    (∀ f nx, v.node = .numeric f nx → IsNumLit numOk v.lit)
+
+theorem evInv_of_other {v : EV} (h1 : ∀ i nx, v.node ≠ .integer i nx) (h2 : ∀ f nx, v.node ≠ .numeric f nx) :
+    EVInv v := by
+  intro _
+  exact ⟨fun i nx h => absurd h (h1 i nx), fun f nx h => absurd h (h2 f nx)⟩
+
+section
+variable (o : Oracles)
+
+theorem safe_peek : Safe TokOk (peek o) := by
+  intro s hs
+  unfold peek
+  cases hla : s.la with
+  | some t =>
+    simp only
+    exact ⟨(hs.1 t hla).1, hs⟩
+  | none =>
+    simp only
+    have htr : Track (srcInv L) (lex o s.lx).2.2 := track_lex o s.lx hs.2
+    by_cases hoof : (lex o s.lx).2.2.oof = true
+    · simp only [hoof, if_true]
+    · simp only [hoof, if_false, Bool.false_eq_true]
+      by_cases hstop : (lex o s.lx).1 = Tok.stop
+      · simp only [hstop, if_true]
+        refine ⟨fun h => ?_, ?_, htr⟩
+        · rcases h with h | h <;> simp at h
+        · intro t ht; simp [hla] at ht
+      · simp only [hstop, if_false]
+        have hnum : TokOk ((lex o s.lx).1, (lex o s.lx).2.1) := by
+          intro h
+          apply lex_num
+          simp only [isNum, Bool.or_eq_true, decide_eq_true_eq]
+          exact h
+        refine ⟨hnum, ?_, htr⟩
+        intro t ht
+        simp at ht
+        rw [← ht]; exact ⟨hnum, hstop⟩
+
+theorem safe_expect (t : Tok) : Safe (fun _ => True) (expect o t) := by
+  unfold expect
+  apply safe_bind (safe_peek o)
+  intro a _
+  simp only
+  split
+  · exact safe_consume
+  · exact safe_syn
+
+theorem safe_astNewInteger (lit : List Char) (h : IsNumLit intOk lit) (hp : intOk lit = true) :
+    Safe EVInv (astNewInteger lit) := by
+  unfold astNewInteger
+  unfold intOk at hp
+  split
+  · apply safe_pure
+    intro _
+    exact ⟨fun _ _ _ => h, fun f nx hh => by simp at hh⟩
+  · rename_i hn; rw [hn] at hp; simp at hp
+
+theorem safe_astNewNumeric (lit : List Char) (h : IsNumLit numOk lit) (hp : numOk lit = true) :
+    Safe EVInv (astNewNumeric lit) := by
+  unfold astNewNumeric
+  unfold numOk at hp
+  split
+  · apply safe_pure
+    intro _
+    exact ⟨fun i nx hh => by simp at hh, fun _ _ _ => h⟩
+  · rename_i hn; rw [hn] at hp; simp at hp
+
+theorem safe_newInteger (lit : List Char) (h : NumHead lit) : Safe EVInv (newInteger lit) := by
+  unfold newInteger
+  split
+  · rename_i v hv
+    apply safe_pure
+    intro _
+    have hp : intOk lit = true := by simp [intOk, hv]
+    refine ⟨fun _ _ _ => ⟨lit, Or.inl rfl, h, hp, ?_⟩, fun f nx hh => by simp at hh⟩
+    exact parseInt0_neg h hp
+  · apply safe_bind safe_recordError
+    intro _ _
+    apply safe_pure
+    exact evInv_of_other (by intro i nx h; simp at h) (by intro f nx h; simp at h)
+
+theorem safe_newNumeric (lit : List Char) (h : NumHead lit) : Safe EVInv (newNumeric lit) := by
+  unfold newNumeric
+  split
+  · rename_i v hv
+    apply safe_pure
+    intro _
+    have hp : numOk lit = true := by simp [numOk, hv]
+    refine ⟨fun i nx hh => by simp at hh, fun _ _ _ => ⟨lit, Or.inl rfl, h, hp, ?_⟩⟩
+    exact parseFloatFinite_neg h hp
+  · apply safe_bind safe_recordError
+    intro _ _
+    apply safe_pure
+    exact evInv_of_other (by intro i nx h; simp at h) (by intro f nx h; simp at h)
+
+theorem safe_newUnaryOrNumber (op : UnOp) (v : EV) (hv : EVInv v) : Safe EVInv (newUnaryOrNumber op v) := by
+  unfold newUnaryOrNumber
+  split
+  · rename_i hnx
+    have hnx' : v.node.next = none := by simpa using hnx
+    have ⟨hi, hf⟩ := hv hnx'
+    split
+    · rename_i f nx hnode
+      split
+      · exact safe_pure hv
+      · have := isNumLit_neg (hf f nx hnode)
+        exact safe_astNewNumeric _ this.1 this.2
+    · rename_i i nx hnode
+      split
+      · exact safe_pure hv
+      · have := isNumLit_neg (hi i nx hnode)
+        exact safe_astNewInteger _ this.1 this.2
+    · apply safe_pure
+      exact evInv_of_other (by intro i nx h; simp at h) (by intro f nx h; simp at h)
+  · apply safe_pure
+    exact evInv_of_other (by intro i nx h; simp at h) (by intro f nx h; simp at h)
+
+
+theorem appendEnd_next_some (n t : Node) : (appendEnd n (some t)).next ≠ none := by
+  cases n <;> rename_i nx <;> cases nx <;> simp [appendEnd, Node.next]
+
+theorem evInv_linkNodes (head : EV) (ops : List Node) (h : EVInv head) : EVInv (linkNodes head ops) := by
+  unfold linkNodes
+  cases ops with
+  | nil => exact h
+  | cons op rest =>
+    intro hnx
+    simp only [chainOf] at hnx
+    exact absurd hnx (appendEnd_next_some _ _)
+
+theorem evInv_binary (op : BinOp) (l r : EV) : EVInv (binary op l r) :=
+  evInv_of_other (by intro i nx h; simp [binary] at h) (by intro f nx h; simp [binary] at h)
+
+theorem evInv_unary (op : UnOp) (x : EV) : EVInv (unary op x) :=
+  evInv_of_other (by intro i nx h; simp [unary] at h) (by intro f nx h; simp [unary] at h)
+
+theorem safe_mkRegex (v : EV) (hv : EVInv v) (pat fl : List Char) : Safe EVInv (mkRegex o v pat fl) := by
+  unfold mkRegex
+  simp only
+  split
+  · apply safe_pure
+    exact evInv_of_other (by intro i nx h; simp at h) (by intro f nx h; simp at h)
+  · apply safe_bind safe_recordError
+    intro _ _
+    exact safe_pure hv
+
+theorem safe_anyLevelOf (lit : List Char) : Safe (fun _ => True) (anyLevelOf lit) := by
+  unfold anyLevelOf
+  split
+  · exact safe_pure trivial
+  · apply safe_bind safe_recordError
+    intro _ _
+    exact safe_pure trivial
+
+theorem safe_anyLevel : Safe (fun _ => True) (anyLevel o) := by
+  unfold anyLevel
+  apply safe_bind (safe_peek o)
+  intro a _
+  simp only
+  split
+  · apply safe_bind safe_consume
+    intro _ _
+    apply safe_bind (safe_anyLevelOf _)
+    intro _ _
+    exact safe_pure trivial
+  · split
+    · apply safe_bind safe_consume
+      intro _ _
+      exact safe_pure trivial
+    · exact safe_syn
+
+theorem safe_csvElem (t : Tok × List Char) (ht : TokOk t) : Safe (fun _ => True) (csvElem o t) := by
+  obtain ⟨k, txt⟩ := t
+  unfold csvElem
+  simp only
+  split
+  · rename_i hk
+    apply safe_bind safe_consume
+    intro _ _
+    apply safe_bind (safe_newInteger txt (ht (Or.inl hk)))
+    intro _ _
+    exact safe_pure trivial
+  · apply safe_bind safe_consume
+    intro _ _
+    apply safe_bind (safe_peek o)
+    intro a ha
+    obtain ⟨t2, txt2⟩ := a
+    simp only
+    split
+    · exact safe_syn
+    · rename_i hk2
+      apply safe_bind safe_consume
+      intro _ _
+      apply safe_bind (safe_newInteger txt2 (ha (Or.inl (by simpa using hk2))))
+      intro v hv
+      apply safe_bind (safe_newUnaryOrNumber _ v hv)
+      intro _ _
+      exact safe_pure trivial
+
+
+def PrimInv : PrimR → Prop
+  | .pred v => EVInv v
+  | .expr v => EVInv v
+
+def AtomInv : AtomR → Prop
+  | .pred v => EVInv v
+  | .expr v _ => EVInv v
+
+/-- every function of the parser at fuel `f` is safe -/
+structure AllSafe (f : Nat) : Prop where
+  unaryT : ∀ t, TokOk t → Safe EVInv (parseUnaryT o f t)
+  unary : Safe EVInv (parseUnary o f)
+  scalar : ∀ t, TokOk t → Safe EVInv (parseScalar o f t)
+  accLoop : ∀ head ops, EVInv head → Safe EVInv (accessorLoop o f head ops)
+  paren : ∀ ctx, Safe PrimInv (parenTail o f ctx)
+  atom : ∀ ctx, Safe AtomInv (parseAtom o f ctx)
+  exists_ : Safe EVInv (existsTail o f)
+  exprT : ∀ ctx v, EVInv v → Safe AtomInv (exprTail o f ctx v)
+  arith : ∀ v, EVInv v → Safe (fun p => EVInv p.1) (arithLoop o f v)
+  mul : ∀ v, EVInv v → Safe EVInv (mulLoop o f v)
+  pred : ∀ v, EVInv v → Safe (fun p => EVInv p.1) (predLoop o f v)
+  or_ : ∀ v, EVInv v → Safe EVInv (orLoop o f v)
+  accOp : ∀ t, Safe (fun _ => True) (accessorOp o f t)
+  index : ∀ t acc, TokOk t → Safe (fun _ => True) (indexList o f t acc)
+  csv : Safe (fun _ => True) (csvList o f)
+  csvM : ∀ acc, Safe (fun _ => True) (csvMore o f acc)
+
+theorem allSafe_zero : AllSafe (L := L) o 0 := by
+  constructor
+  all_goals intros
+  all_goals first
+    | (simp only [parseUnaryT, parseUnary, parseScalar, accessorLoop, parenTail, parseAtom, existsTail, exprTail,
+        arithLoop, mulLoop, predLoop, orLoop, accessorOp, indexList, csvList, csvMore]; exact safe_outOfFuel)
+
+section step
+variable {f : Nat} (ih : AllSafe (L := L) o f)
+include ih
+
+theorem step_unaryT (t : Tok × List Char) (ht : TokOk t) : Safe EVInv (parseUnaryT o (f + 1) t) := by
+  obtain ⟨k, txt⟩ := t
+  rw [parseUnaryT]
+  split
+  · apply safe_bind safe_consume; intro _ _
+    apply safe_bind ih.unary; intro v hv
+    exact safe_newUnaryOrNumber _ v hv
+  · split
+    · apply safe_bind safe_consume; intro _ _
+      apply safe_bind ih.unary; intro v hv
+      exact safe_newUnaryOrNumber _ v hv
+    · split
+      · apply safe_bind safe_consume; intro _ _
+        apply safe_bind (ih.paren _); intro r hr
+        cases r with
+        | pred v => exact safe_syn
+        | expr v => exact safe_pure hr
+      · exact ih.scalar _ ht
+
+theorem step_unary : Safe EVInv (parseUnary o (f + 1)) := by
+  rw [parseUnary]
+  apply safe_bind (safe_peek o); intro t ht
+  exact ih.unaryT t ht
+
+
+theorem step_scalar (t : Tok × List Char) (ht : TokOk t) : Safe EVInv (parseScalar o (f + 1) t) := by
+  obtain ⟨k, txt⟩ := t
+  unfold parseScalar
+  have other : ∀ n : Node, (∀ i nx, n ≠ .integer i nx) → (∀ x nx, n ≠ .numeric x nx) →
+      Safe EVInv (do consume; let h ← (pure { node := n } : P EV); accessorLoop o f h []) := by
+    intro n h1 h2
+    apply safe_bind safe_consume; intro _ _
+    apply safe_bind (safe_pure (Q := EVInv) (evInv_of_other h1 h2)); intro h hh
+    exact ih.accLoop h [] hh
+  cases k
+  all_goals first
+    | exact safe_syn
+    | (apply other <;> (intros; simp))
+    | skip
+  · apply safe_bind safe_consume; intro _ _
+    apply safe_bind (safe_newNumeric txt (ht (Or.inr rfl))); intro h hh
+    exact ih.accLoop h [] hh
+  · apply safe_bind safe_consume; intro _ _
+    apply safe_bind (safe_newInteger txt (ht (Or.inl rfl))); intro h hh
+    exact ih.accLoop h [] hh
+
+theorem step_accLoop (head : EV) (ops : List Node) (hh : EVInv head) :
+    Safe EVInv (accessorLoop o (f + 1) head ops) := by
+  rw [accessorLoop]
+  apply safe_bind (safe_peek o); intro a _
+  obtain ⟨t, txt⟩ := a
+  simp only
+  split
+  · apply safe_bind (ih.accOp t); intro op _
+    exact ih.accLoop head _ hh
+  · exact safe_pure (evInv_linkNodes head ops hh)
+
+
+theorem step_paren (ctx : Ctx) : Safe PrimInv (parenTail o (f + 1) ctx) := by
+  unfold parenTail
+  apply safe_bind (ih.atom ctx); intro a ha
+  cases a with
+  | expr v t =>
+    simp only
+    split
+    · exact safe_syn
+    · apply safe_bind safe_consume; intro _ _
+      apply safe_bind (safe_peek o); intro p _
+      obtain ⟨t2, txt2⟩ := p
+      simp only
+      split
+      · apply safe_bind (ih.accOp t2); intro op _
+        apply safe_bind (ih.accLoop v [op] ha); intro e he
+        exact safe_pure he
+      · exact safe_pure ha
+  | pred v0 =>
+    simp only
+    apply safe_bind (ih.pred v0 ha); intro p hp
+    obtain ⟨v, t⟩ := p
+    simp only
+    split
+    · exact safe_syn
+    · apply safe_bind safe_consume; intro _ _
+      apply safe_bind (safe_peek o); intro q _
+      obtain ⟨t2, txt2⟩ := q
+      simp only
+      split
+      · apply safe_bind (ih.accOp t2); intro op _
+        apply safe_bind (ih.accLoop v [op] hp); intro e he
+        exact safe_pure he
+      · split
+        · exact safe_syn
+        · split
+          · apply safe_bind safe_consume; intro _ _
+            apply safe_bind (safe_expect o _); intro _ _
+            exact safe_pure (evInv_unary _ _)
+          · exact safe_pure hp
+
+theorem step_exists : Safe EVInv (existsTail o (f + 1)) := by
+  unfold existsTail
+  apply safe_bind (safe_expect o _); intro _ _
+  apply safe_bind ih.unary; intro u hu
+  apply safe_bind (ih.arith u hu); intro p _
+  obtain ⟨e, t⟩ := p
+  simp only
+  split
+  · exact safe_syn
+  · apply safe_bind safe_consume; intro _ _
+    exact safe_pure (evInv_unary _ _)
+
+theorem step_atom (ctx : Ctx) : Safe AtomInv (parseAtom o (f + 1) ctx) := by
+  unfold parseAtom
+  apply safe_bind (safe_peek o); intro p hp
+  obtain ⟨t, txt⟩ := p
+  simp only
+  split
+  · apply safe_bind safe_consume; intro _ _
+    apply safe_bind (safe_peek o); intro q _
+    obtain ⟨t2, txt2⟩ := q
+    simp only
+    split
+    · apply safe_bind safe_consume; intro _ _
+      apply safe_bind ih.exists_; intro v _
+      exact safe_pure (evInv_unary _ _)
+    · split
+      · apply safe_bind safe_consume; intro _ _
+        apply safe_bind (ih.atom _); intro a ha
+        cases a with
+        | expr v t => exact safe_syn
+        | pred v0 =>
+          simp only
+          apply safe_bind (ih.pred v0 ha); intro r _
+          obtain ⟨v, t3⟩ := r
+          simp only
+          split
+          · exact safe_syn
+          · apply safe_bind safe_consume; intro _ _
+            exact safe_pure (evInv_unary _ _)
+      · exact safe_syn
+  · split
+    · apply safe_bind safe_consume; intro _ _
+      apply safe_bind ih.exists_; intro v hv
+      exact safe_pure hv
+    · split
+      · apply safe_bind safe_consume; intro _ _
+        apply safe_bind (ih.paren _); intro r hr
+        cases r with
+        | pred v => exact safe_pure hr
+        | expr v => exact ih.exprT ctx v hr
+      · split
+        · exact safe_syn
+        · apply safe_bind (ih.unaryT (t, txt) hp); intro v hv
+          exact ih.exprT ctx v hv
+
+
+theorem step_exprT (ctx : Ctx) (v : EV) (hv : EVInv v) : Safe AtomInv (exprTail o (f + 1) ctx v) := by
+  unfold exprTail
+  apply safe_bind (ih.arith v hv); intro p hp
+  obtain ⟨lhs, t⟩ := p
+  simp only
+  split
+  · apply safe_bind safe_consume; intro _ _
+    apply safe_bind ih.unary; intro u hu
+    apply safe_bind (ih.arith u hu); intro q _
+    obtain ⟨rhs, t'⟩ := q
+    exact safe_pure (evInv_binary _ _ _)
+  · split
+    · apply safe_bind safe_consume; intro _ _
+      apply safe_bind (safe_expect o _); intro _ _
+      apply safe_bind (safe_peek o); intro q _
+      obtain ⟨t2, txt2⟩ := q
+      simp only
+      split
+      · apply safe_bind safe_consume; intro _ _
+        exact safe_pure (evInv_binary _ _ _)
+      · split
+        · apply safe_bind safe_consume; intro _ _
+          exact safe_pure (evInv_binary _ _ _)
+        · exact safe_syn
+    · split
+      · apply safe_bind safe_consume; intro _ _
+        apply safe_bind (safe_peek o); intro q _
+        obtain ⟨t2, pat⟩ := q
+        simp only
+        split
+        · exact safe_syn
+        · apply safe_bind safe_consume; intro _ _
+          apply safe_bind (safe_peek o); intro q3 _
+          obtain ⟨t3, x3⟩ := q3
+          simp only
+          split
+          · apply safe_bind safe_consume; intro _ _
+            apply safe_bind (safe_peek o); intro q4 _
+            obtain ⟨t4, fl⟩ := q4
+            simp only
+            split
+            · exact safe_syn
+            · apply safe_bind safe_consume; intro _ _
+              apply safe_bind (safe_mkRegex o lhs hp pat fl); intro r hr
+              exact safe_pure hr
+          · apply safe_bind (safe_mkRegex o lhs hp pat []); intro r hr
+            exact safe_pure hr
+      · split
+        · exact safe_syn
+        · exact safe_pure hp
+
+theorem step_arith (v : EV) (hv : EVInv v) : Safe (fun p => EVInv p.1) (arithLoop o (f + 1) v) := by
+  unfold arithLoop
+  apply safe_bind (safe_peek o); intro p _
+  obtain ⟨t, txt⟩ := p
+  simp only
+  split
+  · apply safe_bind safe_consume; intro _ _
+    apply safe_bind ih.unary; intro u hu
+    apply safe_bind (ih.mul u hu); intro rhs _
+    exact ih.arith _ (evInv_binary _ _ _)
+  · split
+    · apply safe_bind safe_consume; intro _ _
+      apply safe_bind ih.unary; intro u hu
+      exact ih.arith _ (evInv_binary _ _ _)
+    · exact safe_pure hv
+
+theorem step_mul (v : EV) (hv : EVInv v) : Safe EVInv (mulLoop o (f + 1) v) := by
+  unfold mulLoop
+  apply safe_bind (safe_peek o); intro p _
+  obtain ⟨t, txt⟩ := p
+  simp only
+  split
+  · apply safe_bind safe_consume; intro _ _
+    apply safe_bind ih.unary; intro u hu
+    exact ih.mul _ (evInv_binary _ _ _)
+  · exact safe_pure hv
+
+theorem step_pred (v : EV) (hv : EVInv v) : Safe (fun p => EVInv p.1) (predLoop o (f + 1) v) := by
+  unfold predLoop
+  apply safe_bind (safe_peek o); intro p _
+  obtain ⟨t, txt⟩ := p
+  simp only
+  split
+  · apply safe_bind safe_consume; intro _ _
+    apply safe_bind (ih.atom _); intro a ha
+    cases a with
+    | pred r => exact ih.pred _ (evInv_binary _ _ _)
+    | expr _ _ => exact safe_syn
+  · split
+    · apply safe_bind safe_consume; intro _ _
+      apply safe_bind (ih.atom _); intro a ha
+      cases a with
+      | pred r0 =>
+        simp only
+        apply safe_bind (ih.or_ r0 ha); intro r _
+        exact ih.pred _ (evInv_binary _ _ _)
+      | expr _ _ => exact safe_syn
+    · exact safe_pure hv
+
+theorem step_or (v : EV) (hv : EVInv v) : Safe EVInv (orLoop o (f + 1) v) := by
+  unfold orLoop
+  apply safe_bind (safe_peek o); intro p _
+  obtain ⟨t, txt⟩ := p
+  simp only
+  split
+  · apply safe_bind safe_consume; intro _ _
+    apply safe_bind (ih.atom _); intro a ha
+    cases a with
+    | pred r2 => exact ih.or_ _ (evInv_binary _ _ _)
+    | expr _ _ => exact safe_syn
+  · exact safe_pure hv
+
+
+theorem step_csvM (acc : List Node) : Safe (fun _ => True) (csvMore o (f + 1) acc) := by
+  unfold csvMore
+  apply safe_bind (safe_peek o); intro p _
+  obtain ⟨t, txt⟩ := p
+  simp only
+  split
+  · apply safe_bind safe_consume; intro _ _
+    apply safe_bind (safe_peek o); intro q hq
+    obtain ⟨t2, txt2⟩ := q
+    simp only
+    split
+    · apply safe_bind (safe_csvElem o _ hq); intro e _
+      exact ih.csvM _
+    · exact safe_syn
+  · exact safe_pure trivial
+
+theorem step_csv : Safe (fun _ => True) (csvList o (f + 1)) := by
+  unfold csvList
+  apply safe_bind (safe_peek o); intro p hp
+  obtain ⟨t, txt⟩ := p
+  simp only
+  split
+  · apply safe_bind (safe_csvElem o _ hp); intro e _
+    exact ih.csvM _
+  · exact safe_pure trivial
+
+theorem step_index (t : Tok × List Char) (acc : List Node) (ht : TokOk t) :
+    Safe (fun _ => True) (indexList o (f + 1) t acc) := by
+  unfold indexList
+  apply safe_bind (ih.unaryT t ht); intro u hu
+  apply safe_bind (ih.arith u hu); intro p _
+  obtain ⟨e, t2⟩ := p
+  simp only
+  have hcont : ∀ elem : Node, Safe (fun _ => True)
+      (do let __x ← peek o
+          if __x.fst = Tok.comma then do
+              consume
+              let t4 ← peek o
+              if t4.fst = Tok.stop then syn else indexList o f t4 (acc ++ [elem])
+            else
+              if __x.fst = Tok.rbrack then do
+                consume
+                pure (acc ++ [elem])
+              else syn : P (List Node)) := by
+    intro elem
+    apply safe_bind (safe_peek o); intro q _
+    split
+    · apply safe_bind safe_consume; intro _ _
+      apply safe_bind (safe_peek o); intro t4 ht4
+      split
+      · exact safe_syn
+      · exact ih.index t4 _ ht4
+    · split
+      · apply safe_bind safe_consume; intro _ _
+        exact safe_pure trivial
+      · exact safe_syn
+  split
+  · apply safe_bind safe_consume; intro _ _
+    apply safe_bind ih.unary; intro u2 hu2
+    apply safe_bind (ih.arith u2 hu2); intro q _
+    apply safe_bind (safe_pure (Q := fun _ => True) trivial); intro elem _
+    exact hcont elem
+  · apply safe_bind (safe_pure (Q := fun _ => True) trivial); intro elem _
+    exact hcont elem
+
+
+theorem step_accOp (t : Tok) : Safe (fun _ => True) (accessorOp o (f + 1) t) := by
+  unfold accessorOp
+  apply safe_bind safe_consume; intro _ _
+  by_cases hq : t = Tok.question
+  · rw [if_pos hq]
+    -- filter
+    apply safe_bind (safe_expect o _); intro _ _
+    apply safe_bind (ih.atom _); intro a ha
+    cases a with
+    | expr _ _ => exact safe_syn
+    | pred v0 =>
+      simp only
+      apply safe_bind (ih.pred v0 ha); intro p _
+      obtain ⟨v, t2⟩ := p
+      simp only
+      split
+      · exact safe_syn
+      · apply safe_bind safe_consume; intro _ _
+        exact safe_pure trivial
+  · rw [if_neg hq]
+    by_cases hb : t = Tok.lbrack
+    · rw [if_pos hb]
+      -- subscript
+      apply safe_bind (safe_peek o); intro p hp
+      obtain ⟨t2, txt2⟩ := p
+      simp only
+      split
+      · apply safe_bind safe_consume; intro _ _
+        apply safe_bind (safe_expect o _); intro _ _
+        exact safe_pure trivial
+      · split
+        · exact safe_syn
+        · apply safe_bind (ih.index _ _ hp); intro _ _
+          exact safe_pure trivial
+    · rw [if_neg hb]
+      -- after '.'
+      apply safe_bind (safe_peek o); intro p hp
+      obtain ⟨k, txt⟩ := p
+      simp only
+      split
+      · apply safe_bind safe_consume; intro _ _
+        exact safe_pure trivial
+      · split
+        · -- .**
+          apply safe_bind safe_consume; intro _ _
+          apply safe_bind (safe_peek o); intro q _
+          obtain ⟨t2, x2⟩ := q
+          simp only
+          split
+          · apply safe_bind safe_consume; intro _ _
+            apply safe_bind (safe_anyLevel o); intro a _
+            apply safe_bind (safe_peek o); intro q3 _
+            obtain ⟨t3, x3⟩ := q3
+            simp only
+            split
+            · apply safe_bind safe_consume; intro _ _
+              exact safe_pure trivial
+            · split
+              · apply safe_bind safe_consume; intro _ _
+                apply safe_bind (safe_anyLevel o); intro b _
+                apply safe_bind (safe_expect o _); intro _ _
+                exact safe_pure trivial
+              · exact safe_syn
+          · exact safe_pure trivial
+        · split
+          · apply safe_bind safe_consume; intro _ _
+            exact safe_pure trivial
+          · split
+            · -- method
+              apply safe_bind safe_consume; intro _ _
+              apply safe_bind (safe_peek o); intro q _
+              obtain ⟨t2, x2⟩ := q
+              simp only
+              split
+              · apply safe_bind safe_consume; intro _ _
+                apply safe_bind (safe_expect o _); intro _ _
+                exact safe_pure trivial
+              · exact safe_pure trivial
+            · split
+              · -- decimal
+                apply safe_bind safe_consume; intro _ _
+                apply safe_bind (safe_peek o); intro q _
+                obtain ⟨t2, x2⟩ := q
+                simp only
+                split
+                · apply safe_bind safe_consume; intro _ _
+                  apply safe_bind ih.csv; intro args _
+                  apply safe_bind (safe_expect o _); intro _ _
+                  split
+                  · exact safe_pure trivial
+                  · exact safe_pure trivial
+                  · exact safe_pure trivial
+                  · apply safe_bind safe_recordError; intro _ _
+                    exact safe_pure trivial
+                · exact safe_pure trivial
+              · split
+                · -- date
+                  apply safe_bind safe_consume; intro _ _
+                  apply safe_bind (safe_peek o); intro q _
+                  obtain ⟨t2, x2⟩ := q
+                  simp only
+                  split
+                  · apply safe_bind safe_consume; intro _ _
+                    apply safe_bind (safe_expect o _); intro _ _
+                    exact safe_pure trivial
+                  · exact safe_pure trivial
+                · split
+                  · -- datetime
+                    apply safe_bind safe_consume; intro _ _
+                    apply safe_bind (safe_peek o); intro q _
+                    obtain ⟨t2, x2⟩ := q
+                    simp only
+                    split
+                    · apply safe_bind safe_consume; intro _ _
+                      apply safe_bind (safe_peek o); intro q3 _
+                      obtain ⟨t3, tpl⟩ := q3
+                      simp only
+                      split
+                      · apply safe_bind safe_consume; intro _ _
+                        apply safe_bind (safe_expect o _); intro _ _
+                        exact safe_pure trivial
+                      · apply safe_bind (safe_expect o _); intro _ _
+                        exact safe_pure trivial
+                    · exact safe_pure trivial
+                  · split
+                    · -- time, time_tz, timestamp, timestamp_tz
+                      apply safe_bind safe_consume; intro _ _
+                      apply safe_bind (safe_peek o); intro q _
+                      obtain ⟨t2, x2⟩ := q
+                      simp only
+                      split
+                      · apply safe_bind safe_consume; intro _ _
+                        apply safe_bind (safe_peek o); intro q3 hq3
+                        obtain ⟨t3, digs⟩ := q3
+                        simp only
+                        split
+                        · rename_i h3
+                          apply safe_bind safe_consume; intro _ _
+                          apply safe_bind (safe_newInteger digs (hq3 (Or.inl h3))); intro pnode _
+                          apply safe_bind (safe_expect o _); intro _ _
+                          exact safe_pure trivial
+                        · apply safe_bind (safe_expect o _); intro _ _
+                          exact safe_pure trivial
+                      · exact safe_pure trivial
+                    · exact safe_syn
+
+end step
+
+
+theorem allSafe : ∀ f, AllSafe (L := L) o f
+  | 0 => allSafe_zero o
+  | f + 1 =>
+    have ih := allSafe f
+    { unaryT := step_unaryT o ih
+      unary := step_unary o ih
+      scalar := step_scalar o ih
+      accLoop := step_accLoop o ih
+      paren := step_paren o ih
+      atom := step_atom o ih
+      exists_ := step_exists o ih
+      exprT := step_exprT o ih
+      arith := step_arith o ih
+      mul := step_mul o ih
+      pred := step_pred o ih
+      or_ := step_or o ih
+      accOp := step_accOp o ih
+      index := step_index o ih
+      csv := step_csv o ih
+      csvM := step_csvM o ih }
+
+theorem safe_parseBody (f : Nat) : Safe (fun _ => True) (parseBody o f) := by
+  have ih := allSafe (L := L) o f
+  unfold parseBody
+  apply safe_bind (safe_peek o); intro p _
+  obtain ⟨t, txt⟩ := p
+  simp only
+  have hcont : ∀ lax : Bool, Safe (fun _ => True)
+      (do let a ← parseAtom o f Ctx.top
+          match a with
+            | AtomR.expr v _ => pure (lax, false, v)
+            | AtomR.pred v0 => do
+              let __x ← predLoop o f v0
+              pure (lax, true, __x.fst) : P (Bool × Bool × EV)) := by
+    intro lax
+    apply safe_bind (ih.atom _); intro a ha
+    cases a with
+    | expr v t2 => exact safe_pure trivial
+    | pred v0 =>
+      simp only
+      apply safe_bind (ih.pred v0 ha); intro q _
+      exact safe_pure trivial
+  split
+  · apply safe_bind safe_consume; intro _ _
+    apply safe_bind (safe_pure (Q := fun _ => True) trivial); intro lax _
+    exact hcont lax
+  · split
+    · apply safe_bind safe_consume; intro _ _
+      apply safe_bind (safe_pure (Q := fun _ => True) trivial); intro lax _
+      exact hcont lax
+    · apply safe_bind (safe_pure (Q := fun _ => True) trivial); intro lax _
+      exact hcont lax
+
+theorem safe_finish (lax isPred : Bool) (root : EV) : Safe (fun _ => True) (finish o lax isPred root) := by
+  unfold finish
+  apply safe_bind safe_hasError; intro bad _
+  have hcont : ∀ r : Option AST, Safe (fun _ => True)
+      (do let __x ← peek o
+          if __x.fst ≠ Tok.stop then syn else pure r : P (Option AST)) := by
+    intro r
+    apply safe_bind (safe_peek o); intro p _
+    split
+    · exact safe_syn
+    · exact safe_pure trivial
+  split
+  · apply safe_bind (safe_pure (Q := fun _ => True) trivial); intro r _
+    exact hcont r
+  · split
+    · apply safe_bind (safe_pure (Q := fun _ => True) trivial); intro r _
+      exact hcont r
+    · apply safe_bind safe_recordError; intro _ _
+      apply safe_bind (safe_pure (Q := fun _ => True) trivial); intro r _
+      exact hcont r
+
+theorem safe_parseTop (f : Nat) : Safe (fun _ => True) (parseTop o f) := by
+  unfold parseTop
+  apply safe_bind (safe_parseBody o f); intro p _
+  obtain ⟨lax, isPred, root⟩ := p
+  exact safe_finish o lax isPred root
+
+/-- **C04**: the model of `Parse` never panics — on any byte string, for any oracle. -/
+theorem parse_never_panics (bytes : List UInt8) : parse o bytes ≠ .panic := by
+  have h := safe_parseTop (L := decodeAll bytes) o (fuelFor bytes) { lx := LState.init bytes, la := none }
+    ⟨by intro t ht; simp at ht, ⟨[], by simp [LState.init], by simp⟩⟩
+  unfold parse Parse.run
+  cases hr : parseTop o (fuelFor bytes) { lx := LState.init bytes, la := none } with
+  | ok r s =>
+    simp only
+    split
+    · simp
+    · split <;> simp
+  | syn => simp
+  | panic => rw [hr] at h; exact absurd h id
+  | fuel => simp
+
+end
+
+end
+
+/-! ### Accepted inputs were read completely and contain neither NUL nor invalid UTF-8 -/
+
+section
+variable (o : Oracles)
+
+/-- the accept state: the result is passed on only if the look-ahead there is `stopTok` -/
+theorem finish_tail_peek (r : Option AST) (s s' : PS) (a : AST)
+    (h : (do let result ← (pure r : P (Option AST))
+             let __x ← peek o
+             if __x.fst ≠ Tok.stop then syn else pure result) s = .ok (some a) s') :
+    ∃ t, peek o s = .ok t s' ∧ t.1 = .stop := by
+  simp only [bind_apply, pure_apply] at h
+  cases hp : peek o s with
+  | ok t s1 =>
+    simp only [hp] at h
+    by_cases ht : t.fst = Tok.stop
+    · simp [ht, pure_apply] at h
+      exact ⟨t, by rw [h.2], ht⟩
+    · simp [ht, syn] at h
+  | syn => simp [hp] at h
+  | panic => simp [hp] at h
+  | fuel => simp [hp] at h
+
+theorem finish_some_peek (lax isPred : Bool) (root : EV) (s s' : PS) (a : AST)
+    (h : finish o lax isPred root s = .ok (some a) s') :
+    ∃ t, peek o s = .ok t s' ∧ t.1 = .stop := by
+  unfold finish at h
+  simp only [bind_apply, hasError] at h
+  split at h
+  · have := finish_tail_some o none s s' a h
+    simp at this
+  · split at h
+    · exact finish_tail_peek o _ s s' a h
+    · rw [bind_apply] at h
+      simp only [recordError] at h
+      have := finish_tail_some o none _ s' a h
+      simp at this
+
+/-- **an accepted input was read to its end, and none of it was an undecodable byte or NUL** -/
+theorem parse_ok_clean (bytes : List UInt8) (a : AST) (h : parse o bytes = .ok a) :
+    (decodeAll bytes).all cleanSrc = true := by
+  obtain ⟨s, hrun, herr⟩ := parse_ok_no_error o bytes a h
+  unfold Parse.run parseTop at hrun
+  rw [bind_apply] at hrun
+  have hsafe := safe_parseBody (L := decodeAll bytes) o (fuelFor bytes) { lx := LState.init bytes, la := none }
+    ⟨by intro t ht; simp at ht, ⟨[], by simp [LState.init], by simp⟩⟩
+  cases hb : parseBody o (fuelFor bytes) { lx := LState.init bytes, la := none } with
+  | ok v s1 =>
+    rw [hb] at hrun hsafe
+    obtain ⟨lax, isPred, root⟩ := v
+    simp only at hrun
+    have hinv : PSInv (decodeAll bytes) s1 := hsafe.2
+    obtain ⟨t, hpeek, hstop⟩ := finish_some_peek o lax isPred root s1 s a hrun
+    -- the final look-ahead was lexed just then: a cached token is never `stopTok`
+    unfold peek at hpeek
+    cases hla : s1.la with
+    | some t' =>
+      simp only [hla] at hpeek
+      injection hpeek with h1 h2
+      subst h1
+      exact absurd hstop (hinv.1 t' hla).2
+    | none =>
+      simp only [hla] at hpeek
+      by_cases hoof : (lex o s1.lx).2.2.oof = true
+      · simp [hoof] at hpeek
+      · simp only [hoof, if_false, Bool.false_eq_true] at hpeek
+        by_cases hs : (lex o s1.lx).1 = Tok.stop
+        · simp only [hs, if_true] at hpeek
+          injection hpeek with h1 h2
+          have hlx : s.lx = (lex o s1.lx).2.2 := by rw [← h2]
+          have hend := lex_stop o s1.lx hs
+          have htr := track_lex (L := srcInv (decodeAll bytes)) o s1.lx hinv.2
+          rw [← hlx] at hend htr
+          rcases hend with he | he | he
+          · rw [herr] at he; exact absurd he (by decide)
+          · rw [hlx] at he; exact absurd he hoof
+          · obtain ⟨pre, hL, hc⟩ := htr
+            rw [he, List.append_nil] at hL
+            rw [hL]
+            cases hp : pre.all cleanSrc with
+            | true => rfl
+            | false => have := hc hp; rw [herr] at this; exact absurd this (by decide)
+        · simp only [hs, if_false] at hpeek
+          injection hpeek with h1 h2
+          rw [← h1] at hstop
+          exact absurd hstop hs
+  | syn => rw [hb] at hrun; simp at hrun
+  | panic => rw [hb] at hrun; simp at hrun
+  | fuel => rw [hb] at hrun; simp at hrun
+
+
+end
+
+/-! ### byte level: a NUL byte always surfaces as a NUL rune -/
+
+theorem decodeRune_cont (b : UInt8) (bs : List UInt8) :
+    ∀ i, i + 1 < (decodeRune (b :: bs)).2 → ∃ x, bs[i]? = some x ∧ x.toNat ≠ 0 := by
+  intro i hi
+  unfold decodeRune at hi
+  simp only at hi
+  repeat' (split at hi)
+  all_goals (try (simp at hi; done))
+  all_goals
+    simp only [isCont, Bool.and_eq_true, decide_eq_true_eq] at *
+  all_goals first
+    | (have : i = 0 := by omega
+       subst this
+       refine ⟨_, rfl, ?_⟩
+       omega)
+    | (have : i = 0 ∨ i = 1 := by omega
+       rcases this with rfl | rfl
+       · refine ⟨_, rfl, ?_⟩; omega
+       · refine ⟨_, rfl, ?_⟩; omega)
+    | (have : i = 0 ∨ i = 1 ∨ i = 2 := by omega
+       rcases this with rfl | rfl | rfl
+       · refine ⟨_, rfl, ?_⟩; omega
+       · refine ⟨_, rfl, ?_⟩; omega
+       · refine ⟨_, rfl, ?_⟩; omega)
+
+theorem decodeRune_nul (bs : List UInt8) : decodeRune ((0 : UInt8) :: bs) = (.ch (Char.ofNat 0), 1) := by
+  simp [decodeRune]
+
+theorem decodeAllAux_nul : ∀ (bs : List UInt8) (skip : Nat),
+    (∀ i, i < skip → ∃ x, bs[i]? = some x ∧ x.toNat ≠ 0) → (0 : UInt8) ∈ bs →
+    ∃ y ∈ decodeAllAux skip bs, cleanSrc y = false
+  | [], _, _, h0 => by simp at h0
+  | b :: bs, 0, _, h0 => by
+    unfold decodeAllAux
+    simp only []
+    by_cases hb : b = 0
+    · subst hb
+      rw [decodeRune_nul]
+      exact ⟨_, List.mem_cons_self, by decide⟩
+    · have hmem : (0 : UInt8) ∈ bs := by
+        rcases List.mem_cons.mp h0 with h | h
+        · exact absurd h.symm hb
+        · exact h
+      obtain ⟨y, hy, hc⟩ := decodeAllAux_nul bs ((decodeRune (b :: bs)).2 - 1)
+        (fun i hi => decodeRune_cont b bs i (by omega)) hmem
+      exact ⟨y, List.mem_cons_of_mem _ hy, hc⟩
+  | b :: bs, k + 1, hskip, h0 => by
+    unfold decodeAllAux
+    obtain ⟨x, hx, hx0⟩ := hskip 0 (by omega)
+    simp at hx
+    subst hx
+    have hmem : (0 : UInt8) ∈ bs := by
+      rcases List.mem_cons.mp h0 with h | h
+      · exfalso; apply hx0; rw [← h]; rfl
+      · exact h
+    exact decodeAllAux_nul bs k (fun i hi => by
+      have := hskip (i + 1) (by omega)
+      simpa using this) hmem
+
+/-- **C04**: an input that contains a NUL byte is never accepted -/
+theorem rejects_nul (o : Oracles) (bytes : List UInt8) (h0 : (0 : UInt8) ∈ bytes) (a : AST) :
+    parse o bytes ≠ .ok a := by
+  intro h
+  have hc := parse_ok_clean o bytes a h
+  obtain ⟨y, hy, hyc⟩ := decodeAllAux_nul bytes 0 (fun i hi => by omega) h0
+  have := List.all_eq_true.mp hc y (by unfold decodeAll; exact hy)
+  rw [hyc] at this
+  exact absurd this (by decide)
+
+/-- **C04**: an input with a byte sequence that `utf8.DecodeRune` rejects is never accepted -/
+theorem rejects_invalid_utf8 (o : Oracles) (bytes : List UInt8) (hb : Src.bad ∈ decodeAll bytes) (a : AST) :
+    parse o bytes ≠ .ok a := by
+  intro h
+  have hc := parse_ok_clean o bytes a h
+  have := List.all_eq_true.mp hc _ hb
+  simp [cleanSrc] at this
+
+
+/-! ## §10 Integer literals are read back
+
+`lex_int`: a run of decimal digits (no leading zero) followed by a rune that does not continue a
+number is `INT_P` with that text.  `lex_formatNat`: in particular the text the printer writes for
+a non-negative integer (`Decimal.formatNat n = Nat.toDigits 10 n`). -/
+
+theorem isDecimal_facts (d : Char) (h : isDecimal d = true) :
+    d.toNat ≠ 0 ∧ d ≠ '_' ∧ d ≠ '.' ∧ isWhitespace d = false ∧ d ≠ '\\' ∧ ¬ (d.toNat ≥ 58) := by
+  simp only [isDecimal, Bool.and_eq_true, decide_eq_true_eq] at h
+  have a1 : 48 ≤ d.toNat := h.1
+  have a2 : d.toNat ≤ 57 := h.2
+  refine ⟨by omega, ?_, ?_, ?_, ?_, by omega⟩
+  · intro hh; subst hh; revert a1 a2; decide
+  · intro hh; subst hh; revert a1 a2; decide
+  · unfold isWhitespace
+    have : d ≠ '\t' ∧ d ≠ '\n' ∧ d ≠ '\r' ∧ d ≠ ' ' := by
+      refine ⟨?_, ?_, ?_, ?_⟩ <;> (intro hh; subst hh; revert a1 a2; decide)
+    simp [this.1, this.2.1, this.2.2.1, this.2.2.2]
+  · intro hh; subst hh; revert a1 a2; decide
+
+/-- the rune after a number literal does not continue it -/
+structure EndsNumber (o : Oracles) (y : Option Char) : Prop where
+  notDigit : isDecimalR y = false
+  notSep : y ≠ some '_'
+  notDot : y ≠ some '.'
+  notExp : y.map lowerBit ≠ some 'e'
+  notX : y.map lowerBit ≠ some 'x'
+  notO : y.map lowerBit ≠ some 'o'
+  notB : y.map lowerBit ≠ some 'b'
+  notIdentL : isIdentStart o (y.map lowerBit) = false
+  notIdent : isIdentStart o y = false
+
+theorem digitsLoop_stop (hex : Bool) (maxCh f : Nat) (y : Option Char) (b : Nat) (inv : Option Char)
+    (acc : List Char) (s : LState) (h1 : isDecimalR y = false) (h2 : y ≠ some '_') (hh : hex = false) :
+    digitsLoop hex maxCh (f + 1) y b inv acc s = (y, b, inv, acc, s) := by
+  subst hh
+  unfold digitsLoop
+  cases y with
+  | none => rfl
+  | some c =>
+    have : c ≠ '_' := fun h => h2 (by rw [h])
+    simp only [isDecimalR] at h1
+    simp [this, h1]
+
+/-- the digit loop (base ≤ 10, all digits below the base) reads a run of decimal digits -/
+theorem digitsLoop_digits (st : LState) (tail : List Src) (y : Option Char) (s' : LState)
+    (hfin : next (feed st [] tail) = (y, s')) (hy1 : isDecimalR y = false) (hy2 : y ≠ some '_') :
+    ∀ (ds : List Char) (d : Char) (acc : List Char) (b f : Nat),
+      (∀ c ∈ d :: ds, isDecimal c = true) → ds.length + 2 ≤ f →
+      digitsLoop false 58 f (some d) b none acc (feed st ds tail)
+        = (y, b ||| 1, none, ds.reverse ++ d :: acc, s') := by
+  intro ds
+  induction ds with
+  | nil =>
+    intro d acc b f hd hf
+    obtain ⟨f1, rfl⟩ : ∃ f1, f = f1 + 2 := ⟨f - 2, by simp at hf; omega⟩
+    have hdd := isDecimal_facts d (hd d (by simp))
+    unfold digitsLoop
+    simp only [hdd.2.1, if_false, hd d (by simp), Bool.false_eq_true, if_true, hfin]
+    have : (!false && decide (d.toNat ≥ 58) && (none : Option Char).isNone) = false := by
+      simp [hdd.2.2.2.2.2]
+    simp only [this, Bool.false_eq_true, if_false]
+    rw [digitsLoop_stop false 58 f1 y _ none _ s' hy1 hy2 rfl]
+    simp
+  | cons d' ds' ih =>
+    intro d acc b f hd hf
+    obtain ⟨f1, rfl⟩ : ∃ f1, f = f1 + 1 := ⟨f - 1, by simp at hf; omega⟩
+    have hdd := isDecimal_facts d (hd d (by simp))
+    have hd' := isDecimal_facts d' (hd d' (by simp))
+    unfold digitsLoop
+    simp only [hdd.2.1, if_false, hd d (by simp), Bool.false_eq_true, if_true]
+    have : (!false && decide (d.toNat ≥ 58) && (none : Option Char).isNone) = false := by
+      simp [hdd.2.2.2.2.2]
+    simp only [this, Bool.false_eq_true, if_false]
+    rw [next_feed_cons _ _ _ _ hd'.1]
+    simp only []
+    rw [ih d' (d :: acc) (b ||| 1) f1 (fun c hc => hd c (by simp at hc ⊢; rcases hc with h | h <;> simp [h]))
+      (by simp at hf ⊢; omega)]
+    simp [Nat.or_assoc]
+
+
+theorem scanNumberTail_int (o : Oracles) (base : Nat) (y : Option Char) (hy : EndsNumber o y)
+    (acc : List Char) (s : LState) :
+    scanNumberTail o .int false base true y 1 none acc s = ⟨.int, acc.reverse, y, s⟩ := by
+  unfold scanNumberTail fracPart expPart numFinish
+  simp [hy.notExp, hy.notIdentL, hy.notIdent]
+
+theorem scanNumberBody_int (o : Oracles) (st : LState) (tail : List Src) (y : Option Char) (s' : LState)
+    (hfin : next (feed st [] tail) = (y, s')) (hy : EndsNumber o y)
+    (d : Char) (ds : List Char) (hd : ∀ c ∈ d :: ds, isDecimal c = true) :
+    scanNumberBody o 10 true 0 (some d) [] (feed st ds tail) = ⟨.int, d :: ds, y, s'⟩ := by
+  have hdd := isDecimal_facts d (hd d (by simp))
+  unfold scanNumberBody digits
+  have hne : (some d = some '_') = False := by simp [hdd.2.1]
+  simp only [hne, if_false]
+  have hb : decide (10 > 10) = false := by decide
+  rw [hb]
+  rw [digitsLoop_digits st tail y s' hfin hy.notDigit hy.notSep ds d [] 0 _ hd
+    (by simp only [feed, List.length_append, List.length_map]; omega)]
+  simp only [Nat.zero_or]
+  have h1 : ((1 : Nat) &&& 1 = 0) = False := by decide
+  simp only [h1, if_false, hy.notDot]
+  rw [scanNumberTail_int o 10 y hy]
+  simp
+
+theorem zeroPrefix_plain (o : Oracles) (s : LState) (y : Option Char) (s' : LState) (hfin : next s = (y, s'))
+    (hy : EndsNumber o y) : zeroPrefix [] s = some (8, true, 1, y, ['0'], s') := by
+  unfold zeroPrefix
+  simp only [hfin]
+  have h1 : (decide (Option.map lowerBit y = some 'x') || decide (Option.map lowerBit y = some 'o') ||
+      decide (Option.map lowerBit y = some 'b')) = false := by
+    simp [hy.notX, hy.notO, hy.notB]
+  simp only [h1, Bool.false_eq_true, if_false]
+  by_cases hdot : Option.map lowerBit y = some '.'
+  · simp [hdot]
+  · simp [hdot, hy.notSep, hy.notDigit]
+
+theorem scanNumber_zero (o : Oracles) (s : LState) (y : Option Char) (s' : LState) (hfin : next s = (y, s'))
+    (hy : EndsNumber o y) : scanNumber o '0' false [] s = ⟨.int, ['0'], y, s'⟩ := by
+  unfold scanNumber
+  simp only [Bool.false_eq_true, if_false, if_true]
+  rw [zeroPrefix_plain o s y s' hfin hy]
+  simp only
+  unfold scanNumberBody digits
+  have hne : (y = some '_') = False := by simp [hy.notSep]
+  simp only [hne, if_false]
+  have hb : decide (8 > 10) = false := by decide
+  rw [hb, digitsLoop_stop false _ _ y 0 none _ s' hy.notDigit hy.notSep rfl]
+  simp only [Nat.or_zero]
+  have h1 : ((1 : Nat) &&& 1 = 0) = False := by decide
+  simp only [h1, if_false, hy.notDot]
+  rw [scanNumberTail_int o 8 y hy]
+  simp
+
+
+/-- **C03, integer literals**: a run of decimal digits without a leading zero (or the single digit
+    `0`), followed by a rune that does not continue a number, is read as `INT_P` with exactly that
+    text — whatever follows that rune. -/
+theorem lex_int (o : Oracles) (d : Char) (ds : List Char) (hd : ∀ c ∈ d :: ds, isDecimal c = true)
+    (hz : d = '0' → ds = []) (hx : o.xidStart d = false)
+    (st : LState) (tail : List Src) (hch : st.ch = none) (hrest : st.rest = (d :: ds).map Src.ch ++ tail)
+    (y : Option Char) (s' : LState) (hfin : next { st with rest := tail } = (y, s')) (hy : EndsNumber o y) :
+    (Lex.lex o st).1 = .int ∧ (Lex.lex o st).2.1 = d :: ds := by
+  obtain ⟨rest, ch, err, oof⟩ := st
+  simp only at hch hrest
+  subst hch
+  have hdd := isDecimal_facts d (hd d (by simp))
+  let st0 : LState := { rest := rest, ch := none, err := err, oof := oof }
+  have hst : st0 = feed st0 (d :: ds) tail := by
+    simp only [feed, st0, hrest]
+  have hfin' : next (feed st0 [] tail) = (y, s') := by
+    simpa [feed, st0] using hfin
+  have hid : isIdentStart o (some d) = false := by
+    simp [isIdentStart, hdd.2.1, hdd.2.2.2.2.1, hx]
+  show (Lex.lex o st0).1 = .int ∧ (Lex.lex o st0).2.1 = d :: ds
+  unfold Lex.lex
+  have hnext : next st0 = (some d, feed st0 ds tail) := by
+    rw [hst, next_feed_cons _ _ _ _ hdd.1]
+    simp [feed]
+  have hch0 : st0.ch = none := rfl
+  simp only [hch0, hnext]
+  unfold lexFrom
+  rw [skipWs_nonws _ _ _ hdd.2.2.2.1]
+  simp only [hid, Bool.false_eq_true, if_false, hd d (by simp), if_true]
+  by_cases h0 : d = '0'
+  · subst h0
+    have := hz rfl
+    subst this
+    rw [scanNumber_zero o (feed st0 [] tail) y s' hfin' hy]
+    simp
+  · unfold scanNumber
+    simp only [Bool.false_eq_true, if_false, h0]
+    rw [scanNumberBody_int o st0 tail y s' hfin' hy d ds hd]
+    simp
+
+
+theorem isDecimal_of_isDigit (c : Char) (h : c.isDigit = true) : isDecimal c = true := by
+  simp only [Char.isDigit, Bool.and_eq_true, decide_eq_true_eq] at h
+  simp only [isDecimal, Bool.and_eq_true, decide_eq_true_eq]
+  exact ⟨h.1, h.2⟩
+
+theorem toDigits_head (n : Nat) (hn : 0 < n) : ∃ c cs, Nat.toDigits 10 n = c :: cs ∧ c ≠ '0' := by
+  induction n using Nat.strongRecOn with
+  | _ n ih =>
+    by_cases hlt : n < 10
+    · rw [Nat.toDigits_of_lt_base hlt]
+      refine ⟨_, [], rfl, ?_⟩
+      have : n = 1 ∨ n = 2 ∨ n = 3 ∨ n = 4 ∨ n = 5 ∨ n = 6 ∨ n = 7 ∨ n = 8 ∨ n = 9 := by omega
+      rcases this with h | h | h | h | h | h | h | h | h <;> subst h <;> decide
+    · have hq : 0 < n / 10 := by omega
+      obtain ⟨c, cs, hc, hc0⟩ := ih (n / 10) (by omega) hq
+      have happ := Nat.toDigits_append_toDigits (b := 10) (n := n / 10) (d := n % 10) (by decide) hq
+        (Nat.mod_lt _ (by decide))
+      have hn' : 10 * (n / 10) + n % 10 = n := by omega
+      rw [hn'] at happ
+      rw [← happ, hc]
+      exact ⟨c, cs ++ Nat.toDigits 10 (n % 10), rfl, hc0⟩
+
+/-- **C02/C03, integers**: the text `strconv.FormatInt(n, 10)` of a natural number, followed by a
+    rune that does not continue a number, is read back as `INT_P` with that very text -/
+theorem lex_formatNat (o : Oracles) (hx : ∀ c, isDecimal c = true → o.xidStart c = false) (n : Nat)
+    (st : LState) (tail : List Src) (hch : st.ch = none)
+    (hrest : st.rest = (Nat.toDigits 10 n).map Src.ch ++ tail)
+    (y : Option Char) (s' : LState) (hfin : next { st with rest := tail } = (y, s')) (hy : EndsNumber o y) :
+    (Lex.lex o st).1 = .int ∧ (Lex.lex o st).2.1 = Nat.toDigits 10 n := by
+  have hall : ∀ c ∈ Nat.toDigits 10 n, isDecimal c = true := fun c hc =>
+    isDecimal_of_isDigit c (Nat.isDigit_of_mem_toDigits (by decide) (by decide) hc)
+  by_cases hn : n = 0
+  · subst hn
+    have h0 : Nat.toDigits 10 0 = ['0'] := by decide
+    rw [h0] at hrest hall ⊢
+    exact lex_int o '0' [] hall (fun _ => rfl) (hx '0' (by decide)) st tail hch hrest y s' hfin hy
+  · obtain ⟨c, cs, hc, hc0⟩ := toDigits_head n (by omega)
+    rw [hc] at hrest hall ⊢
+    exact lex_int o c cs hall (fun h => absurd h hc0) (hx c (hall c (by simp))) st tail hch hrest y s' hfin hy
 
 
 end ParseLemmas
